@@ -247,6 +247,15 @@ def make_cases(tier, rnd):
                     cases.append(dict(kind="mul", mode=mode, widths=[n, m], big_endian=not be, gen=True))
         for n in range(grid + 1, diag + 1):
             cases.append(dict(kind="mul", mode=mode, widths=[n, n], big_endian=False, host="fresh"))
+    # very unbalanced widths (narrow times wide): the partial-product matrix is a thin band
+    wide = 14 if thorough else 12
+    for mode in MUL_MODES:
+        for small in (1, 2, 3):
+            for big in range(6 if small > 1 else 9, wide + 1):
+                if not thorough and (big + small + len(mode)) % 2:
+                    continue
+                for n, m in ((small, big), (big, small)):
+                    cases.append(dict(kind="mul", mode=mode, widths=[n, m], big_endian=bool((n + len(mode)) % 2), host="fresh"))
     cases.append(dict(kind="mul_public", mode="KARATSUBA_PLAIN", widths=[5, 4], big_endian=True, host="host"))
     cases.append(dict(kind="mul_public", mode="KARATSUBA_PLAIN", widths=[6, 6], host="fresh"))
     if thorough:
